@@ -138,6 +138,30 @@ package fscache
 //@   assigns nothing
 //@   ensures result1 == nil ==> result0 != nil && fresh(result0) && result0.gcm != nil && result0.r == r     # name: usable-key-gives-an-aead
 //@   ensures result1 != nil ==> result0 == nil                                             # name: bad-key-gives-no-encryptor
+// DSN wiring (C17): "encrypt=on" and "encrypt=aesgcm" both ask for encryption; a cache opened
+// from such a DSN encrypts or is not opened. The other option constructors only build a value.
+//@ func WithBaseDir
+//@   trusted
+//@   pure
+//@ func WithConnectTimeout
+//@   trusted
+//@   pure
+//@ func WithTimeout
+//@   trusted
+//@   pure
+//@ func WithUpdateMTime
+//@   trusted
+//@   pure
+//@ func parseTimeout
+//@   property C17
+//@   pure
+//@   ensures result >= 0                                                                 # name: timeouts-are-never-negative
+//@ func fromURL
+//@   property C17
+//@   nosafety
+//@   requires u != nil
+//@   assigns *
+//@   ensures result1 == nil && result0 != nil && (urlQuery(u, "encrypt") == "on" || urlQuery(u, "encrypt") == "aesgcm") ==> result0.enc != nil     # name: encryption-asked-for-in-the-dsn-is-on-or-open-fails
 // The goroutine started by Open runs initialize, which sets the directory-related fields only.
 //@ func Open$1
 //@   trusted
@@ -146,6 +170,6 @@ package fscache
 //@   property C17
 //@   nosafety
 //@   assigns *
-//@   ensures result1 == nil && result0 != nil && (exists j int :: 0 <= j && j < len(opts) && isEncOption(opts[j])) ==> result0.enc != nil     # name: requested-encryption-is-on-or-open-fails
+//@   ensures result1 == nil && result0 != nil && (exists j int :: 0 <= j && j < len(opts) && isEncOption(old(opts[j]))) ==> result0.enc != nil     # name: requested-encryption-is-on-or-open-fails
 //@   loop 0 invariant -1 <= rangeindex && rangeindex < len(opts) && c != nil && fresh(c) && c.connTimeout >= 0
 //@   loop 0 invariant forall j int :: 0 <= j && j <= rangeindex && isEncOption(opts[j]) ==> c.enc != nil
